@@ -15,7 +15,8 @@
   Partial: maps, channels, the `:=` / `=` / blank variable forms, evaluation of the range
   expression once, and the lowering itself (rewriter/range.go, rewrite.go) are covered by the template
   programs of correspondence `tb` against the same source on the reference coroutine, not by theorems.
-  Open finding D4: range over an array aliases instead of copying.
+  Open finding D4: range over an array aliases instead of copying - kernel-checked below
+  (`C04_cex_array_range_aliases`; `C04_array_range_readonly`: invisible unless the body writes to the array).
 -/
 import GoCo.Iters.Loop
 set_option autoImplicit false
@@ -59,5 +60,22 @@ theorem C04_slice_range {M V : Type} (read : M → Nat → Option V) (body : Nat
 example : (goRangeSlice (M := List Nat) (fun m i => m[i]?)
       (fun i e m => ((m.set 0 (m[0]?.getD 0 + (e.map (·.2)).getD 0)).set (i+1) 100, i == 2)) 4 0 [0, 5, 6, 7] 0)
     = ([200, 100, 100, 100], 3) := by decide
+
+/-! ### D4 (open finding), kernel-checked: a range over an array VALUE is lowered to `NewSliceIter(a[:])`, i.e. to
+    the aliasing loop, while Go ranges over a copy.  Memory = (the array, what the body saw); the body writes 30
+    into cell 2 in iteration 0: Go sees 1 2 3, the lowered loop 1 2 30.  The two agree whenever the body does not
+    write to the array (`C04_array_range_readonly`), which is why it takes a writing body to see D4. -/
+def d4Body : Nat → Option (Nat × Nat) → List Nat × List Nat → (List Nat × List Nat) × Bool :=
+  fun i e m => ((if i = 0 then m.1.set 2 30 else m.1, m.2 ++ [(e.map (·.2)).getD 0]), false)
+
+theorem C04_cex_array_range_aliases :
+    (loopSlice (fun m i => m.1[i]?) d4Body 4 (newSliceIter 3) ([1, 2, 3], []) 0).1.2 = [1, 2, 30] ∧
+    (goRangeArray (fun m i => m.1[i]?) d4Body ([1, 2, 3], []) 3 0 ([1, 2, 3], []) 0).1.2 = [1, 2, 3] := by
+  decide
+
+theorem C04_array_range_readonly {M V : Type} (read : M → Nat → Option V)
+    (body : Nat → Option (Nat × V) → M → M × Bool) (hro : ∀ j e m, read (body j e m).1 = read m) (n : Nat) (m : M) :
+    loopSlice read body (n+1) (newSliceIter n) m 0 = goRangeArray read body m n 0 m 0 := by
+  rw [loopSlice_eq_goRange, goRangeArray_eq_slice_of_readonly read body m hro n 0 m 0 rfl]
 
 end GoCo.C04
